@@ -41,12 +41,12 @@ type descriptor struct {
 }
 
 type builtProc struct {
-	spec   procSpec
-	g      *gen.Graph
-	id     string
-	throw  string // throw node id
-	hook   string // catch node id or message start id (target of a message flow)
-	start  string
+	spec  procSpec
+	g     *gen.Graph
+	id    string
+	throw string // throw node id
+	hook  string // catch node id or message start id (target of a message flow)
+	start string
 }
 
 type built struct {
@@ -145,12 +145,12 @@ func build(d descriptor) *built {
 }
 
 type waiter struct {
-	id       int
-	cancel   context.CancelFunc
-	res      chan bool
-	done     bool
-	val      bool
-	expired  bool
+	id              int
+	cancel          context.CancelFunc
+	res             chan bool
+	done            bool
+	val             bool
+	expired         bool
 	expiredWhenDone bool
 }
 
